@@ -1,16 +1,64 @@
 (* PropsC08.v — C08: reference resolution terminates: cycles are errors, everything else
    resolves.  Statements only; proofs are in ProofsVarEval.v.
 
-   PARTIAL: proved (for every recursive evaluator dv, hence at every fuel) are that a reference
-   re-entered while it is being evaluated is reported as cyclic AT THAT POINT without any
-   further evaluation, that a resolver knowing the name absorbs the error, and that the names
-   registered while one piece of an expression is evaluated are not visible to the next piece
-   (repeated uses and diamonds are no cycles). NOT proved: that the fuel the model runs with
-   always suffices (termination of the model itself); the correspondence run counts the
-   evaluations the model leaves undecided (verdict 8) and the harness reports a read of the
-   implementation that does not return (XHang / crash replay) as a violation. *)
+   PARTIAL.  Proved:
+   - termination on the reference fragment: for EVERY tree whose dynamic values are plain
+     references (any shape and depth; references may be cyclic, dangling, point into lists, at
+     containers or at other references), read without Env configs and resolvers, every read is
+     decided - a value or an error - as soon as the fuel exceeds the number of references
+     (c08_plain_references_terminate), by a measure argument: every nested evaluation adds a new
+     reference name to the active set, a name that is active is reported as cyclic at once;
+   - fuel irrelevance for EVERY tree, expression, Env and resolver: an outcome obtained with some
+     fuel is the outcome with every larger fuel (c08_fuel_is_irrelevant, also for Unpack into
+     interface{}), so the model's answers are those of the unbounded evaluator;
+   - for every recursive evaluator dv, hence at every fuel: a reference re-entered while it is
+     being evaluated is reported as cyclic AT THAT POINT without any further evaluation, a
+     resolver knowing the name absorbs the error, and the names registered while one piece of an
+     expression is evaluated are not visible to the next piece (repeated uses and diamonds are no
+     cycles).
+   NOT proved: termination with splices, Env configs and resolvers (names are computed there);
+   the correspondence run counts the evaluations the model leaves undecided (verdict 8) and the
+   harness reports a read of the implementation that does not return (XHang / crash replay) as
+   a violation. *)
 From Ucfg Require Import Base ParseInt Consts Field Tree PathOps Merge OTree F64 ParseValue VarParse
-     Normalize Flags Ops VarEval ProofsVarEval.
+     Normalize Flags Ops VarEval ProofsVarEval ProofsFuel ProofsTerm.
+
+Theorem c08_plain_references_terminate : forall o root names fuel name idx,
+  eo_envs o = [] -> eo_res o = [] -> refs_only (eo_ftext o) names root = true ->
+  (List.length names < fuel)%nat -> read_string o fuel root name idx <> OutOfModel.
+Proof. exact plain_references_terminate. Qed.
+Print Assumptions c08_plain_references_terminate.
+
+Theorem c08_fuel_is_irrelevant : forall o f f' root name idx r, (f <= f')%nat ->
+  read_string o f root name idx = r -> r <> OutOfModel -> read_string o f' root name idx = r.
+Proof. exact read_string_fuel. Qed.
+Print Assumptions c08_fuel_is_irrelevant.
+
+Theorem c08_fuel_is_irrelevant_unpack : forall o n n' f f', (n <= n')%nat -> (f <= f')%nat ->
+  forall a v, reify_loc o f n a v <> OutOfModel -> reify_loc o f' n' a v = reify_loc o f n a v.
+Proof. exact reify_loc_fuel. Qed.
+Print Assumptions c08_fuel_is_irrelevant_unpack.
+
+Theorem c08_termination_example :
+  let o := {| eo_p := {| p_sep := "."; p_maxIdx := 1024; p_numKeys := false; p_escape := false |};
+              eo_envs := []; eo_res := []; eo_noparse := false; eo_nocomma := false;
+              eo_n := {| n_p := {| p_sep := "."; p_maxIdx := 1024; p_numKeys := false; p_escape := false |};
+                         n_varexp := true; n_m := {| m_h := 0%N; m_ft := None |} |};
+              eo_ftext := [] |} in
+  let root := VSub [("a", ("a", VRef [FName "b"] "."));
+                    ("b", ("b", VRef [FName "a"] "."));
+                    ("c", ("c", VRef [FName "nowhere"] "."));
+                    ("d", ("d", VRef [FName "l"; FIdx 1] "."));
+                    ("e", ("e", VRef [FName "d"] "."));
+                    ("l", ("l", VSub [] (Some [("0", VInt 1); ("1", VStr "one")])))] None in
+  let names := ["b"; "a"; "nowhere"; "l.1"; "d"] in
+  refs_only (eo_ftext o) names root = true /\
+  (forall fuel name idx, (5 < fuel)%nat -> read_string o fuel root name idx <> OutOfModel) /\
+  read_string o 6 root "a" (-1) = Err ECyclic "" /\
+  read_string o 6 root "c" (-1) = Err EMissing "!raw" /\
+  read_string o 6 root "e" (-1) = Ok "one".
+Proof. exact termination_example. Qed.
+Print Assumptions c08_termination_example.
 
 Theorem c08_reentered_reference_is_cyclic_partial : forall o dv fuel0 root a p sep,
   act_has (path_str p sep) a = true -> resolve_ref o dv fuel0 root a p sep = (RCyclic, a).
